@@ -6,7 +6,7 @@ import tempfile
 import numpy as np
 
 from common import run_driver
-from props.scalarfam import new_stats, finish, budget, run_oracle, oracle, fail, replay  # noqa: F401
+from props.scalarfam import new_stats, finish, budget, run_oracle, oracle, fail, replay, correspond_scalar, op_line  # noqa: F401
 
 CLOSURES = ["MOST", "MOSTM", "CONSTANT", "OAAHOC"]
 PRECS = ["single", "double"]
@@ -278,6 +278,28 @@ def run(rng, tier, deep):
             st["disagreements"].append(dict(what="single: impl `%s` vs model `%s`" % (i[:300], o[:300]), op=l))
         if w is False:
             st["disagreements"].append(dict(what="single: outputs of one primitive are not handed unchanged to the next", op=l))
+    # the source primitive of the pipeline (`ideal_source`) and `point_measurement`, cell by cell
+    from bldfm.utils import ideal_source, point_measurement
+    items = []
+    for k in range(budget(tier, deep, 40, 400)):
+        nx, ny = int(rng.integers(1, 14)), int(rng.integers(1, 14))
+        xmx, ymx = float(rng.uniform(20, 400)), float(rng.uniform(20, 400))
+        shape = str(rng.choice(["diamond", "circle", "point", "square"], p=[0.35, 0.3, 0.3, 0.05]))
+        loc = None if rng.random() < 0.4 else (float(xmx * rng.uniform(-0.1, 1.1)), float(ymx * rng.uniform(-0.1, 1.1)))
+        if k % 9 == 0 and nx > 2 and ny > 2:
+            # a centre exactly on a node, and the radius reaching exactly to neighbouring nodes (ties of `R < R0`)
+            xmx = 12.0 * (nx - 1)
+            ymx = 12.0 * (ny - 1)
+            loc = (12.0 * int(rng.integers(nx)), 12.0 * int(rng.integers(ny)))
+        line = op_line("src", str(nx), str(ny), xmx, ymx, *(["N"] if loc is None else [loc[0], loc[1]]), shape)
+        items.append((line, ("ok", np.asarray(ideal_source((nx, ny), (xmx, ymx), src_loc=loc, shape=shape), dtype=float))))
+        st["branches"]["src=" + shape] = st["branches"].get("src=" + shape, 0) + 1
+    for k in range(budget(tier, deep, 20, 200)):
+        ny, nx = int(rng.integers(1, 9)), int(rng.integers(1, 9))
+        f, g = rng.normal(size=(ny, nx)), rng.normal(size=(ny, nx)) * 10.0 ** rng.uniform(-6, 3)
+        line = op_line("pm", str(ny), str(nx), *[float(x) for x in f.ravel()], *[float(x) for x in g.ravel()])
+        items.append((line, ("ok", np.array([float(point_measurement(f, g))]))))
+    correspond_scalar(items, st, tol=1e-12)
     for _ in range(budget(tier, deep, 14, 150)):
         raw, nstep = gen_cfg(rng)
         tw = int(rng.integers(len(raw["towers"])))
